@@ -47,6 +47,26 @@ int main() {
     }
     for (int m = 0; m < 2; ++m) if (seenLo[m] != 1 || seenHi[m] != 1) { printf("dim %d: member %d is not held between the two boundary variables\n", d, m); bad++; }
   }
+  // nested clusters: the child's two boundary variables are held inside the parent's, in both dimensions
+  {
+    vpsc::Rectangles nb; nb.push_back(new vpsc::Rectangle(0, 10, 0, 10)); nb.push_back(new vpsc::Rectangle(30, 40, 30, 40));
+    RectangularCluster parent, *child = new RectangularCluster();
+    child->addChildNode(0); parent.addChildNode(1); parent.addChildCluster(child);
+    parent.setPadding(cola::Box(2, 3, 5, 7)); child->setMargin(cola::Box(11, 13, 17, 19));
+    parent.clusterVarId = 2; child->clusterVarId = 4;        // parent: vars 2,3   child: vars 4,5
+    ClusterContainmentConstraints pc(&parent, 1000, nb);
+    for (int d = 0; d < 2; ++d) {
+      vpsc::Variables vs; vpsc::Constraints cs;
+      for (int i = 0; i < 6; ++i) vs.push_back(new vpsc::Variable(i, 0));
+      pc.generateSeparationConstraints((vpsc::Dim)d, vs, cs, nb);
+      double lo = d == 0 ? 2 + 11 : 5 + 17, hi = d == 0 ? 3 + 13 : 7 + 19; int seenLo = 0, seenHi = 0;
+      for (size_t k = 0; k < cs.size(); ++k) {
+        if (cs[k]->left->id == 2 && cs[k]->right->id == 4 && cs[k]->gap == lo) seenLo++;      // parent.lower + lo <= child.lower
+        if (cs[k]->left->id == 5 && cs[k]->right->id == 3 && cs[k]->gap == hi) seenHi++;      // child.upper + hi <= parent.upper
+      }
+      if (seenLo != 1 || seenHi != 1) { printf("nested clusters, dim %d: the child cluster's boundaries are not held inside the parent's (lower: %d, upper: %d constraint(s) of the expected form)\n", d, seenLo, seenHi); bad++; }
+    }
+  }
   // non-overlap, plain shapes: a pair overlapping in the other axis gets one full separation in this axis, smaller centre first
   for (int d = 0; d < 2; ++d) for (int swap = 0; swap < 2; ++swap) for (int apart = 0; apart < 2; ++apart) {
     vpsc::Rectangles rs;      // shape 0: 10 x 20 at the origin; shape 1: 6 x 4, shifted by 3 in this axis (swap: -3); `apart`: far away in the other axis
@@ -156,6 +176,40 @@ def jobs(tier):
                                                   "%s->n - verif_visited" % this_vec, {"o": "1::1::o", "this": "this"})]),
                   domain="every cluster with up to 10^6 member entries, both dimensions",
                   expect=[r'w_shell\.postcondition', r'loop_invariant_base', r'loop_invariant_step', r'loop_decreases', r'precondition']))
+    # ---------------- the containment constructor, one CHILD CLUSTER: its two boundary variables are held inside the parent's, in both dimensions
+    ctor = slice_func(CCC, r'^ClusterContainmentConstraints::ClusterContainmentConstraints\(Cluster \*cluster,', "ClusterContainmentConstraints::ClusterContainmentConstraints")
+    _, cbody = fragment_loop(ctor, r'for \(std::vector<Cluster \*>::iterator curr = cluster->clusters\.begin\(\);\s*curr != cluster->clusters\.end\(\); \+\+curr\)',
+                             "ClusterContainmentConstraints ctor [loop body: one child cluster]")
+    n_new = len(re.findall(r'new ClusterShapeOffsets\(', strip_comments(cbody.text)))
+    cbody.text = subst(cbody, [(r'new ClusterShapeOffsets\(', 'verif_new_CSO(', n_new)])
+    cso = slice_block(CCC, r'^class ClusterShapeOffsets : public SubConstraintInfo', "class ClusterShapeOffsets")
+    sci = slice_func("libcola/compound_constraints.h", r'^\s*SubConstraintInfo\(unsigned ind\) :', "SubConstraintInfo::SubConstraintInfo")
+    bmin = slice_func("libcola/box.cpp", r'^double Box::min\(size_t dim\) const', "Box::min")
+    bmax = slice_func("libcola/box.cpp", r'^double Box::max\(size_t dim\) const', "Box::max")
+    usings = slice_lines(CCC, r'^using vpsc::[XY]DIM;', 2, "using vpsc::XDIM / YDIM")
+    pre_ctor = pre0.replace("class SubConstraintInfo {\n    public:\n", "class SubConstraintInfo {\n    public:\n" + sci.text +
+                            "\n        SubConstraintInfo() {}   // only so that the other prelude classes derived from it still compile; never called\n")
+    if pre_ctor == pre0:
+        raise Undecided("C08: prelude/cola_compound.h: class SubConstraintInfo head not found")
+    cb_cxx = (base + 'extern "C" { void w_margin(void *cluster, void *box); void *malloc(size_t); }\n' + vpsc_part + usings.text + "\n" + pre_ctor +
+              "namespace cola {\n" + consts.text + "\n" + cso.text + ";\n"
+              "class Box { public: double min(size_t dim) const; double max(size_t dim) const; double m_min[2]; double m_max[2]; };\n"
+              "// front-end workaround: goto-cc types `(c) ? <double> : 0` as int (and converts the double); the literal is written 0.0 (must-fire)\n" +
+              subst(bmin, [(r'\? m_min\[dim\] : 0;', '? m_min[dim] : 0.0;', 1)]) + "\n" + subst(bmax, [(r'\? m_max\[dim\] : 0;', '? m_max[dim] : 0.0;', 1)]) + "\n"
+              "// Cluster: the two members the body reads; margin() (virtual in the real class) forwards to the harness\n"
+              "class Cluster { public: unsigned clusterVarId; Box margin() const { Box b; w_margin((void *)this, (void *)&b); return b; } };\n"
+              "class ClusterContainmentConstraints : public CompoundConstraint { public: void verif_child_body(Cluster **curr, Box& padding, Cluster *cluster); };\n"
+              "// `new ClusterShapeOffsets(args)` substituted (must-fire) by malloc + the REAL constructor on a temporary + field-wise copy\n"
+              "static ClusterShapeOffsets *verif_new_CSO(unsigned ind, vpsc::Dim dim, double offset, int boundarySide, unsigned int boundaryVar) {\n"
+              "  ClusterShapeOffsets t(ind, dim, offset, boundarySide, boundaryVar); ClusterShapeOffsets *p = (ClusterShapeOffsets *)malloc(sizeof(ClusterShapeOffsets)); __CPROVER_assume(p != 0);\n"
+              "  p->varIndex = t.varIndex; p->satisfied = t.satisfied; p->offset = t.offset; p->dim = t.dim; p->boundarySide = t.boundarySide; p->boundaryVar = t.boundaryVar; return p; }\n"
+              "void ClusterContainmentConstraints::verif_child_body(Cluster **curr, Box& padding, Cluster *cluster)\n" + cbody.text + "\n}\n"
+              'extern "C" void w_child_body(void *self, void *slot, void *padding, void *cluster) { ((cola::ClusterContainmentConstraints *)self)->verif_child_body('
+              '(cola::Cluster **)slot, *(cola::Box *)padding, (cola::Cluster *)cluster); }\n')
+    js.append(Job("containment_ctor_child_body", "U", spec, "h_child_body", cxx=cb_cxx, defines=["JOB_child_body"], slices=[ctor, cbody, cso, sci, bmin, bmax, consts],
+                  flags=["--sat-solver", "cadical"], backend="sat:cadical", unwind=6, replay=replay_c08, timeout=900,
+                  domain="one arbitrary child cluster of one arbitrary cluster, every padding and margin (all doubles), 0..3 earlier entries; plain harness; the order of the four entries is free",
+                  expect=[r'h_child_body\.assertion']))
     # ---------------- NonOverlapConstraints::generateSeparationConstraints: one pair of plain shapes (no cluster on either side)
     NOC = "libcola/cc_nonoverlapconstraints.cpp"
     nf = slice_func(NOC, r'^void NonOverlapConstraints::generateSeparationConstraints\(', "NonOverlapConstraints::generateSeparationConstraints")
@@ -218,7 +272,8 @@ TRUSTED = [
 ASSUMPTIONS = [
     "PARTIAL CLAIM: the statement of C08 is NOT decided.  Under contract are only (1) the translation of one cluster's member entries into VPSC constraints "
     "(ClusterContainmentConstraints::generateSeparationConstraints) and (2) the body of NonOverlapConstraints::generateSeparationConstraints for one pair of plain shapes.  "
-    "Not under any obligation: that the entries built by the containment constructor are the members' half sizes plus padding (std::set iteration), pairs in which a shape stands "
+    "Also under contract: the containment constructor's loop body for one CHILD CLUSTER (four entries, order free). Not under any obligation: the entries the constructor "
+    "builds for member NODES (std::set iteration), pairs in which a shape stands "
     "for a cluster, the pair list itself (std::list, exemptions, every pair present), makeFeasible's choice among the four directions, the descent loop ending in a projection "
     "(see C07), cluster bounding boxes, and hence 'no two rectangles overlap' / containment in the result",
     "non-overlap pair job: plain harness (goto-instrument --dfcc ran out of memory): three variables and rectangles with arbitrary contents, any two distinct indices, 0..3 "
@@ -229,5 +284,5 @@ ASSUMPTIONS = [
 ]
 EXPLANATION = ("Contract on the real ClusterContainmentConstraints::generateSeparationConstraints: each member entry yields, in its own dimension only, exactly the inequality that "
                "keeps the member at least its offset inside the named cluster boundary variable (lower boundary + offset <= member, or member + offset <= upper boundary), with the "
-               "creator back-pointer set; every entry is visited. Contract-style harness on the real pair body of NonOverlapConstraints::generateSeparationConstraints: a pair of plain "
+               "creator back-pointer set; every entry is visited. The constructor's loop body for one child cluster records exactly the four entries that hold the child's two boundary variables inside the parent's (padding + margin). Contract-style harness on the real pair body of NonOverlapConstraints::generateSeparationConstraints: a pair of plain "
                "shapes overlapping in the other axis by more than 0.0005 gets one separation in this axis, smaller centre first, gap = sum of half sizes. Everything else C08 states is undecided.")
